@@ -376,7 +376,7 @@ def b18_case(spec):
     from forsys.cell import Cell
     key = _b18_key(spec)
     grid = spec["grid"]
-    big = grid >= 11
+    big = grid >= 12      # the key collision of KF-C18-key-collision starts at 12 (row 1 col 10 vs row 11 col 0); grid 11 is exact
     collide = dict(grid=grid, cells_wrong=0, dict_size=None, examples=[])
 
     def fail(name, detail, extra=None):
